@@ -12,7 +12,7 @@ RULE = ('on random aspect-bounded meshes of the five curves every ordered leaf p
 ASSUMPTIONS = ['no reference integral is needed: the relation is between values of the implementation itself',
                'scope: every piece has h_x^2/h_t <= 32 (time halves double the aspect)']
 REQUIRED = {t: ['split:time', 'split:space', 'split:quarter', 'side:test', 'side:trial', 'side:both', 'pair:diagonal', 'pair:touching',
-                'pair:same-slab', 'pair:other-slab', 'switch:exact', 'switch:quad',
+                'pair:same-slab', 'pair:other-slab', 'mesh:graded-initial-grid', 'switch:exact', 'switch:quad',
                 'curve:UnitSquare', 'curve:PiSquare', 'curve:LShape', 'curve:Circle', 'curve:UnitInterval']
             for t in ('quick', 'thorough')}
 TIMEOUT = {'quick': 900, 'thorough': 5400}
@@ -26,6 +26,10 @@ def plan(tier, seed):
         for k in range(3 if tier == 'quick' else 32):
             specs.append({'name': 'mesh-%s-%d' % (c, k), 'curve': c, 'rseed': seed * 271 + k, 'n_ops': 20 + 10 * k if tier == 'quick' else 30 + 6 * k,
                           'n_pairs': 160 if tier == 'quick' else 1200})
+    for c in CURVES:
+        for k in range(2 if tier == 'quick' else 8):
+            specs.append({'name': 'graded-%s-%d' % (c, k), 'curve': c, 'rseed': seed * 277 + 100 + k, 'n_ops': 4 + 6 * k, 'graded': True,
+                          'n_pairs': 160 if tier == 'quick' else 800})
     return specs
 
 
@@ -56,7 +60,9 @@ def run_shard(spec, acc):
     curve = spec['curve']
     rng = random.Random(spec['rseed'] * 13 + CURVES.index(curve))
     ls, geo = slpairs.make_mesh(curve, spec['rseed'] * 19 + CURVES.index(curve), spec['n_ops'],
-                                time_grid=rng.choice([[0, 1], [0, 0.5, 1]]), custom_grid=rng.random() < 0.3)
+                                time_grid=rng.choice([[0, 1], [0, 0.5, 1]]), custom_grid='graded' if spec.get('graded') else rng.random() < 0.3)
+    if spec.get('graded'):
+        acc.seen('mesh:graded-initial-grid')
     elems = list(ls.mesh.leaf_elements)
     wit0 = {'curve': curve, 'mesh': ls.spec, 'history': ls.history}
     acc.seen('curve:' + curve)
@@ -72,6 +78,17 @@ def run_shard(spec, acc):
         return gap
     allp.sort(key=near)
     pairs += allp[:spec['n_pairs'] // 2] + rng.sample(allp, min(len(allp), spec['n_pairs'] // 2))
+    if curve == 'PiSquare' and spec['name'] == 'graded-PiSquare-0':
+        # the recorded finding's own witness (a short element touching a 64 times longer one in the corner 3*pi)
+        from src.hierarchical_error_estimator import DummyElement
+        from src.mesh import Vertex
+        gam = ls.mesh.gamma_space
+
+        def dummy(t, x):
+            vs = [Vertex(t[0], x[0], -1), Vertex(t[0], x[1], -1), Vertex(t[1], x[1], -1), Vertex(t[1], x[0], -1)]
+            return DummyElement(vs, gam.pw_gamma[geo.piece_of(*x)])
+        elems = elems + [dummy((0.0, 1.0), (9.40023426816321, 9.42477796076938)), dummy((0.0, 1.0), (9.42477796076938, 10.995574287564276))]
+        pairs = [(len(elems) - 2, len(elems) - 1), (len(elems) - 1, len(elems) - 2)] + pairs
     for i, j in pairs:
         test, trial = elems[i], elems[j]
         if test.time_interval[1] <= trial.time_interval[0]:
@@ -88,7 +105,7 @@ def run_shard(spec, acc):
                         if (k_test == 'time' and slpairs.aspect(test) > 16) or (k_trial == 'time' and slpairs.aspect(trial) > 16):
                             acc.count('skipped_aspect')
                             continue
-                        if rng.random() < 0.5 and i != j:
+                        if rng.random() < 0.5 and i != j and not (spec['name'] == 'graded-PiSquare-0' and i >= n):
                             continue
                         total = 0.0
                         vals = []
@@ -110,7 +127,15 @@ def run_shard(spec, acc):
                         acc.seen('pair:same-slab' if test.time_interval == trial.time_interval else 'pair:other-slab')
                         acc.worst_of('%s x %s (%s)' % (k_test, k_trial, 'exact' if exact else 'quad'), err)
                         if not (err <= 1e-7):
-                            acc.violation('not-additive:test-%s:trial-%s:%s' % (k_test, k_trial, 'exact' if exact else 'quad'),
+                            key = 'not-additive:test-%s:trial-%s:%s' % (k_test, k_trial, 'exact' if exact else 'quad')
+                            # the recorded accuracy limit of C01 (pairs across a polygon corner with length ratio >= 32) shows here too
+                            hx_t = test.h_x / (2 if k_test in ('space', 'quarter') else 1)
+                            hx_r = trial.h_x / (2 if k_trial in ('space', 'quarter') else 1)
+                            rel = slpairs.space_relation(geo, test.space_interval, trial.space_interval)
+                            other_piece = geo.piece_of(*test.space_interval) != geo.piece_of(*trial.space_interval)
+                            if other_piece and max(hx_t / hx_r, hx_r / hx_t, test.h_x / trial.h_x, trial.h_x / test.h_x) >= 32 * (1 - 1e-9):
+                                key = 'not-additive:across-corner:size-ratio>=32'
+                            acc.violation(key,
                                           '%s: whole %.17g, sum of pieces %.17g, difference %.3e of sqrt(D_test D_trial)' % (curve, whole, total, err),
                                           dict(wit0, test=(test.time_interval, test.space_interval), trial=(trial.time_interval, trial.space_interval),
                                                split_test=k_test, split_trial=k_trial, pw_exact=exact))
